@@ -45,9 +45,11 @@ Definition s_inited (p : SPc) : Prop := match p with SNone | SCreate => False | 
 
 (* In a run that has been gated throughout, the frames generated so far plus a pending trigger never exceed the
    external triggers -- except for the one trigger that stop itself fires (after it cleared is_running). *)
+Definition at_stop_join (s : St) : bool := match kpc s with KStopJoin _ => true | _ => false end.
+
 Definition slack (s : St) : Z :=
   match hal s, kpc s with
-  | HRunning, KStopJoin => 1
+  | HRunning, KStopJoin _ => 1
   | HRunning, _ => 0
   | _, _ => 1
   end.
@@ -64,14 +66,15 @@ Record Life (s : St) : Prop := mkLife {
   i_trap : cpc s <> CTrap
 }.
 
-(* wake-up protocol of stop *)
+(* wake-up protocol of stop (the one of op X and the one performed inside a rejected set, op b: at_stop_lock /
+   at_stop_join do not distinguish them) *)
 Record Wake (s : St) : Prop := mkWake {
-  l_cpre : running s = false -> cpc s = CPre -> kpc s = KStopLock;
-  l_cwait : running s = false -> cpc s = CWait -> cnot s = false -> kpc s = KStopLock;
-  l_spre : running s = false -> spc s = SPre -> kpc s = KStopLock;
-  l_swait : running s = false -> spc s = SWait -> snot s = false -> kpc s = KStopLock;
+  l_cpre : running s = false -> cpc s = CPre -> at_stop_lock s = true;
+  l_cwait : running s = false -> cpc s = CWait -> cnot s = false -> at_stop_lock s = true;
+  l_spre : running s = false -> spc s = SPre -> at_stop_lock s = true;
+  l_swait : running s = false -> spc s = SWait -> snot s = false -> at_stop_lock s = true;
   l_snot : spc s = SWait -> snot s = true -> triggered s = true;
-  l_trig : running s = false -> kpc s = KStopJoin -> spc s = SLock1 \/ spc s = SWait -> triggered s = true
+  l_trig : running s = false -> at_stop_join s = true -> spc s = SLock1 \/ spc s = SWait -> triggered s = true
 }.
 
 (* frame ids *)
@@ -117,7 +120,7 @@ Ltac brk H :=
 Ltac cases Hs c :=
   destruct c; simpl in Hs;
   unfold kstep, cstep, sstep, c_loop, s_iter, do_trigger, ghost_start, s_after_sleep, s_loop_test, lock_free,
-  hal_running, ctl_done, in_stop in Hs; simpl in Hs;
+  hal_running, ctl_done, in_stop, stop_hal, stop_ret in Hs; simpl in Hs;
   repeat brk Hs; try discriminate; inversion Hs; subst; clear Hs;
   repeat match goal with
          | |- context [knext ?l] => destruct l; simpl knext
@@ -191,7 +194,7 @@ Lemma life_step : forall s c s' l, Life s -> step s c = Some (s', l) -> Life s'.
 Proof.
   intros s c s' l HL Hs. destr s. destruct HL. simpl in *.
   cases Hs c.
-  all: constructor; unfold in_stop in *; simpl in *.
+  all: constructor; unfold in_stop, at_stop_lock, at_stop_join in *; simpl in *.
   all: try (fin; fail).
 Qed.
 
@@ -199,7 +202,7 @@ Lemma wake_step : forall s c s' l, Life s -> Wake s -> step s c = Some (s', l) -
 Proof.
   intros s c s' l HL HW Hs. destr s. destruct HL, HW. simpl in *.
   cases Hs c.
-  all: constructor; unfold in_stop in *; simpl in *.
+  all: constructor; unfold in_stop, at_stop_lock, at_stop_join in *; simpl in *.
   all: try (fin; fail).
   all: try (fin2; fail).
 Qed.
@@ -208,7 +211,7 @@ Lemma ids_step : forall s c s' l, Life s -> Ids s -> step s c = Some (s', l) -> 
 Proof.
   intros s c s' l HL HW Hs. destr s. destruct HL, HW. simpl in *.
   cases Hs c.
-  all: constructor; unfold in_stop in *; simpl in *.
+  all: constructor; unfold in_stop, at_stop_lock, at_stop_join in *; simpl in *.
   all: try (fin; fail).
   all: try (decf; fail).
 Qed.
@@ -219,7 +222,7 @@ Proof.
   pose proof (dec_from_len _ _ (i_deliv _ HI)) as Hlen.
   destr s. destruct HL, HI, HG. simpl in *.
   cases Hs c.
-  all: constructor; unfold in_stop, slack, b2z in *; simpl in *.
+  all: constructor; unfold in_stop, at_stop_lock, at_stop_join, slack, b2z in *; simpl in *.
   all: try assumption.
   all: try (fin; fail).
   all: try (gfin; fail).
